@@ -327,16 +327,296 @@ Definition oracle_spec_langid (op : bytes) (args : list bytes) (impl : bytes) : 
           | None => true end)
   else None.
 
+(* ================================================================== locales / extensions *)
+From UL Require Import Ext Ops AbstractLocale LocaleSpec.
+
+Definition semi : bytes := [59].
+Definition fmt_kmap (m : kmap) : bytes :=
+  join_with semi (map (fun kv => fst kv ++ bs "=" ++ join_with comma (snd kv)) m).
+Definition fmt_u (u : uext) : bytes :=
+  bs "U[" ++ join_with comma (u_attrs u) ++ bs "|" ++ fmt_kmap (u_keywords u) ++ bs "]".
+Definition fmt_t (t : text) : bytes :=
+  bs "T[" ++ (match t_lang t with Some l => fmt_langid l | None => dash end) ++ bs "|" ++ fmt_kmap (t_fields t) ++ bs "]".
+Definition fmt_x (x : list bytes) : bytes := bs "X[" ++ join_with comma x ++ bs "]".
+Definition fmt_ext (e : extmap) : bytes :=
+  fmt_u (e_unicode e) ++ sp ++ fmt_t (e_transform e) ++ sp ++ fmt_x (e_private e) ++ sp
+  ++ bs "E" ++ (if u_is_empty (e_unicode e) then bs "1" else bs "0")
+  ++ (if t_is_empty (e_transform e) then bs "1" else bs "0")
+  ++ (if nil_b (e_private e) then bs "1" else bs "0")
+  ++ (if e_is_empty e then bs "1" else bs "0").
+Definition fmt_locale (l : locale) : bytes :=
+  fmt_langid (loc_id l) ++ sp ++ fmt_ext (loc_ext l) ++ sp ++ loc_to_string l.
+(* Locale / extension errors: only "an error", no kind (no property fixes the kind) *)
+Definition fmt_res_e {A} (f : A -> bytes) (r : res A) : bytes :=
+  match r with Ok a => bs "OK " ++ f a | Err _ => bs "ERR" | Panic _ => bs "PANIC" | OutOfFuel => bs "FUEL" end.
+
+(* derived PartialEq on the model values *)
+Fixpoint kmap_eqb (a b : kmap) : bool :=
+  match a, b with
+  | [], [] => true
+  | (k, v) :: a', (k', v') :: b' => beqb k k' && lbeqb v v' && kmap_eqb a' b'
+  | _, _ => false
+  end.
+Definition oli_eqb (a b : option langid) : bool :=
+  match a, b with Some x, Some y => li_eqb x y | None, None => true | _, _ => false end.
+Definition ext_eqb (a b : extmap) : bool :=
+  kmap_eqb (u_keywords (e_unicode a)) (u_keywords (e_unicode b))
+  && lbeqb (u_attrs (e_unicode a)) (u_attrs (e_unicode b))
+  && oli_eqb (t_lang (e_transform a)) (t_lang (e_transform b))
+  && kmap_eqb (t_fields (e_transform a)) (t_fields (e_transform b))
+  && lbeqb (e_private a) (e_private b).
+Definition loc_eqb (a b : locale) : bool := li_eqb (loc_id a) (loc_id b) && ext_eqb (loc_ext a) (loc_ext b).
+
+(* derived Ord: id, then extensions { unicode {keywords, attributes}, transform {tlang, tfields}, other, private } *)
+Fixpoint kmap_cmp (a b : kmap) : comparison :=
+  match a, b with
+  | [], [] => Eq
+  | [], _ :: _ => Lt
+  | _ :: _, [] => Gt
+  | (k, v) :: a', (k', v') :: b' => then_cmp (bcmp k k') (then_cmp (lcmp v v') (kmap_cmp a' b'))
+  end.
+Definition loc_cmp (a b : locale) : comparison :=
+  let ea := loc_ext a in let eb := loc_ext b in
+  then_cmp (li_cmp (loc_id a) (loc_id b))
+  (then_cmp (kmap_cmp (u_keywords (e_unicode ea)) (u_keywords (e_unicode eb)))
+  (then_cmp (lcmp (u_attrs (e_unicode ea)) (u_attrs (e_unicode eb)))
+  (then_cmp (ocmp li_cmp (t_lang (e_transform ea)) (t_lang (e_transform eb)))
+  (then_cmp (kmap_cmp (t_fields (e_transform ea)) (t_fields (e_transform eb)))
+            (lcmp (e_private ea) (e_private eb)))))).
+
+Definition model_reparse (l : locale) : bytes :=
+  match locale_from_bytes (loc_to_string l) with
+  | Ok y => if loc_eqb l y then bs "same" else bs "DIFF"
+  | _ => bs "REPARSE-ERR"
+  end.
+
+(* ---- histories ---- *)
+Definition fmt_out (o : out) : bytes :=
+  match o with
+  | OutUnit => bs "ok" | OutBool b => fmt_bool b
+  | OutList l => bs "[" ++ join_with comma l ++ bs "]"
+  | OutErr => bs "ERR" | OutPanic => bs "PANIC"
+  end.
+Definition first_byte (a : bytes) : N := match a with b :: _ => b | [] => 0 end.
+Definition mk_op (code : N) (pl : list bytes) : option op :=
+  let p0 := nth 0 pl [] in
+  if code =? 76 then Some (OSetLang p0)            (* L *)
+  else if code =? 83 then Some (OSetScript p0)     (* S *)
+  else if code =? 82 then Some (OSetRegion p0)     (* R *)
+  else if code =? 86 then Some (OSetVariants pl)   (* V *)
+  else if code =? 118 then Some OClearVariants     (* v *)
+  else if code =? 104 then Some (OHasVariant p0)   (* h *)
+  else if code =? 107 then Some (OKeyword p0)      (* k *)
+  else if code =? 75 then Some (OSetKeyword p0 (tl pl))   (* K *)
+  else if code =? 114 then Some (ORemoveKeyword p0)       (* r *)
+  else if code =? 99 then Some OClearKeywords             (* c *)
+  else if code =? 97 then Some (OHasAttribute p0)         (* a *)
+  else if code =? 65 then Some (OSetAttribute p0)         (* A *)
+  else if code =? 100 then Some (ORemoveAttribute p0)     (* d *)
+  else if code =? 101 then Some OClearAttributes          (* e *)
+  else if code =? 71 then Some (OSetTlang p0)             (* G *)
+  else if code =? 103 then Some OClearTlang               (* g *)
+  else if code =? 102 then Some (OTfield p0)              (* f *)
+  else if code =? 70 then Some (OSetTfield p0 (tl pl))    (* F *)
+  else if code =? 109 then Some (ORemoveTfield p0)        (* m *)
+  else if code =? 110 then Some OClearTfields             (* n *)
+  else if code =? 112 then Some (OHasTag p0)              (* p *)
+  else if code =? 80 then Some (OAddTag p0)               (* P *)
+  else if code =? 113 then Some (ORemoveTag p0)           (* q *)
+  else if code =? 81 then Some OClearTags                 (* Q *)
+  else if code =? 77 then Some OMaximize                  (* M *)
+  else if code =? 78 then Some OMinimize                  (* N *)
+  else None.
+(* args: code, count, payload... ; fuel = number of args *)
+Fixpoint decode_ops (fuel : nat) (args : list bytes) : list op :=
+  match fuel with
+  | O => []
+  | S f =>
+    match args with
+    | code :: cnt :: rest =>
+      let n := dec_nat cnt 0 in
+      match mk_op (first_byte code) (firstn n rest) with
+      | Some o => o :: decode_ops f (skipn n rest)
+      | None => []
+      end
+    | _ => []
+    end
+  end.
+Definition sep_hist : bytes := bs " ## ".
+Definition fmt_step (l : locale) (o : out) : bytes :=
+  fmt_out o ++ sp ++ fmt_locale l ++ sp ++ model_reparse l.
+Definition start_of (a : bytes) : option locale :=
+  match a with
+  | [] => Some locale_default
+  | _ => match locale_from_bytes a with Ok l => Some l | _ => None end
+  end.
+Definition model_hist (args : list bytes) : bytes :=
+  match args with
+  | st :: rest =>
+    match start_of st with
+    | Some l0 =>
+      match run the_tables l0 (decode_ops (List.length rest) rest) with
+      | Some steps => join_with sep_hist (map (fun p => fmt_step (fst p) (snd p)) steps)
+      | None => bs "UNSPEC"
+      end
+    | None => bs "BADSTART"
+    end
+  | [] => bs "BADARG"
+  end.
+Definition spec_hist (args : list bytes) : bytes :=
+  match args with
+  | st :: rest =>
+    match start_of st with
+    | Some l0 =>
+      join_with sep_hist
+        (map (fun p => let l := normalize (fst p) in fmt_out (snd p) ++ sp ++ fmt_locale l ++ sp ++ bs "same")
+             (arun the_tables (abstract l0) (decode_ops (List.length rest) rest)))
+    | None => bs "BADSTART"
+    end
+  | [] => bs "BADARG"
+  end.
+
+Definition fmt_ext_type (t : ext_type) : bytes :=
+  match t with EUnicode => bs "u" | ETransform => bs "t" | EPrivate => bs "x" | EOther c => bs "o" ++ [c] end.
+
+Definition oracle_model_locale (op : bytes) (args : list bytes) : option bytes :=
+  let a := arg1 args in
+  if beqb op (bs "locale") then Some (fmt_res_e fmt_locale (locale_from_bytes a))
+  else if beqb op (bs "loc_canonicalize") then Some (fmt_res_e (fun x => x) (loc_canonicalize a))
+  else if beqb op (bs "loc_roundtrip") then
+    Some (match locale_from_bytes a with Ok l => bs "OK " ++ model_reparse l | Err _ => bs "ERR" | _ => bs "PANIC" end)
+  else if beqb op (bs "extmap") then
+    Some (match extmap_from_bytes a with
+          | Ok e => bs "OK " ++ fmt_ext e ++ sp ++ ext_to_string e ++ sp
+                    ++ (match extmap_from_bytes (ext_to_string e) with
+                        | Ok e' => if ext_eqb e e' then bs "same" else bs "DIFF" | _ => bs "REPARSE-ERR" end)
+          | Err _ => bs "ERR" | _ => bs "PANIC" end)
+  else if beqb op (bs "ext_type") then
+    Some (match a with [b] => fmt_res_e fmt_ext_type (ext_type_from_byte b) | _ => bs "BADARG" end)
+  else if beqb op (bs "loc_hist") then Some (model_hist args)
+  else if beqb op (bs "both") then
+    (* C13: LanguageIdentifier and Locale on the same bytes *)
+    Some (match langid_from_bytes a with
+          | Ok v => (match locale_from_bytes a with
+                     | Ok l => if li_eqb (loc_id l) v && e_is_empty (loc_ext l) && beqb (loc_to_string l) (li_to_string v)
+                               then bs "LI-OK LOC-SAME" else bs "LI-OK LOC-DIFF"
+                     | _ => bs "LI-OK LOC-ERR" end)
+          | _ => bs "LI-ERR" end)
+  else if beqb op (bs "loc_conv") then
+    Some (match locale_from_bytes a with
+          | Ok l => (* Locale -> LanguageIdentifier drops exactly the extensions; back gives empty extensions *)
+            fmt_langid (loc_id l) ++ sp ++ fmt_locale (mkLoc (loc_id l) extmap_default)
+          | _ => bs "BADARG" end)
+  else if beqb op (bs "loc_into_parts") then
+    Some (match locale_from_bytes a with
+          | Ok l =>
+            match li_into_parts (loc_id l) with (lg, sc, rg, vs) =>
+              match extmap_from_bytes (ext_to_string (loc_ext l)) with
+              | Ok e => if loc_eqb (loc_from_parts lg sc rg vs (Some e)) l then bs "OK same" else bs "DIFF"
+              | _ => bs "EXT-REPARSE-ERR"
+              end
+            end
+          | _ => bs "BADARG" end)
+  else if beqb op (bs "big") then Some (bs "DONE")
+  else if beqb op (bs "loc_meta") then
+    Some (match locale_from_bytes (arg_n 0 args), locale_from_bytes (arg_n 1 args) with
+          | Ok x, Ok y => if loc_eqb x y && beqb (loc_to_string x) (loc_to_string y) then bs "SAME" else bs "DIFF"
+          | Err _, Err _ => bs "BOTH-ERR"
+          | _, _ => bs "DIFF" end)
+  else if beqb op (bs "li_meta") then
+    Some (match langid_from_bytes (arg_n 0 args), langid_from_bytes (arg_n 1 args) with
+          | Ok x, Ok y => if li_eqb x y && beqb (li_to_string x) (li_to_string y) then bs "SAME" else bs "DIFF"
+          | Err _, Err _ => bs "BOTH-ERR"
+          | _, _ => bs "DIFF" end)
+  else if beqb op (bs "loc_matches") then
+    Some (match locale_from_bytes (arg_n 0 args), locale_from_bytes (arg_n 1 args) with
+          | Ok x, Ok y => fmt_bool (loc_matches x y (flag (arg_n 2 args)) (flag (arg_n 3 args)))
+                          ++ sp ++ fmt_bool (li_matches (loc_id x) (loc_id y) (flag (arg_n 2 args)) (flag (arg_n 3 args)))
+          | _, _ => bs "BADARG" end)
+  else if beqb op (bs "loc_cmp") then
+    Some (match locale_from_bytes (arg_n 0 args), locale_from_bytes (arg_n 1 args) with
+          | Ok x, Ok y => fmt_cmp (loc_cmp x y) ++ sp ++ fmt_bool (loc_eqb x y) ++ sp ++ fmt_bool (beqb (loc_to_string x) (loc_to_string y))
+          | _, _ => bs "BADARG" end)
+  else None.
+
+(* --- spec side --- *)
+(* canonical text: the grammar reading accepts it and the canonical printing of the value read is the
+   text itself; only letters, digits and '-' *)
+(* (a tkey whose only value was `true` prints without a value - "no 'true' values" - which the
+   grammar reading puts in the lenient zone; an empty body or an empty token never survives the
+   reprint test) *)
+Definition canon_locale_text (s : bytes) : bool :=
+  canon_alphabet s &&
+  match spec_locale_zone (split s) with
+  | MustAccept v => beqb (loc_to_string v) s
+  | Either v => beqb (loc_to_string v) s
+  | _ => false
+  end.
+
+Definition spec_locale_ok (a impl : bytes) : bool :=
+  match spec_locale_zone (split a) with
+  | MustAccept v => beqb impl (bs "OK " ++ fmt_locale v)
+  | Either v => beqb impl (bs "ERR") || beqb impl (bs "OK " ++ fmt_locale v)
+  | MustReject => beqb impl (bs "ERR")
+  | Outside => negb (beqb impl (bs "PANIC"))
+  end.
+
+Definition oracle_spec_locale (op : bytes) (args : list bytes) (impl : bytes) : option bool :=
+  let a := arg1 args in
+  if beqb op (bs "locale") then Some (spec_locale_ok a impl)
+  else if beqb op (bs "loc_canonicalize") then
+    Some (match spec_locale_zone (split a) with
+          | MustAccept v => beqb impl (bs "OK " ++ loc_to_string v) && canon_locale_text (loc_to_string v)
+                            && (List.length (loc_to_string v) <=? List.length a)%nat
+          | Either v => beqb impl (bs "ERR")
+                        || (beqb impl (bs "OK " ++ loc_to_string v) && canon_locale_text (loc_to_string v)
+                            && (List.length (loc_to_string v) <=? List.length a)%nat)
+          | MustReject => beqb impl (bs "ERR")
+          | Outside => (* still canonical if it is accepted (C04), never longer than the input *)
+            beqb impl (bs "ERR") ||
+            (match impl with
+             | 79 :: 75 :: 32 :: t => canon_locale_text t && (List.length t <=? List.length a)%nat
+             | _ => false end)
+          end)
+  else if beqb op (bs "loc_roundtrip") then
+    Some (beqb impl (bs "ERR") || beqb impl (bs "OK same"))
+  else if beqb op (bs "loc_hist") then Some (beqb impl (spec_hist args) || beqb (spec_hist args) (bs "BADSTART"))
+  else if beqb op (bs "big") then Some (beqb impl (bs "DONE"))
+  else if beqb op (bs "loc_meta") then Some (beqb impl (bs "SAME") || beqb impl (bs "BOTH-ERR"))
+  else if beqb op (bs "li_meta") then Some (beqb impl (bs "SAME") || beqb impl (bs "BOTH-ERR"))
+  else if beqb op (bs "both") then
+    Some (match spec_langid (split a) with
+          | Some _ => beqb impl (bs "LI-OK LOC-SAME")
+          | None => beqb impl (bs "LI-ERR") end)
+  else if beqb op (bs "loc_into_parts") then Some (beqb impl (bs "OK same") || beqb impl (bs "BADARG"))
+  else if beqb op (bs "loc_matches") then
+    Some (match spec_locale_zone (split (arg_n 0 args)), spec_locale_zone (split (arg_n 1 args)) with
+          | MustAccept x, MustAccept y =>
+            let m := spec_li_matches (loc_id x) (loc_id y) (flag (arg_n 2 args)) (flag (arg_n 3 args)) in
+            let priv := negb (nil_b (e_private (loc_ext x))) || negb (nil_b (e_private (loc_ext y))) in
+            beqb impl (fmt_bool (if priv then false else m) ++ sp ++ fmt_bool m)
+          | _, _ => true end)
+  else if beqb op (bs "loc_cmp") then
+    Some (match spec_locale_zone (split (arg_n 0 args)), spec_locale_zone (split (arg_n 1 args)) with
+          | MustAccept x, MustAccept y =>
+            let same := beqb (loc_to_string x) (loc_to_string y) in
+            beqb impl (fmt_cmp (loc_cmp x y) ++ sp ++ fmt_bool same ++ sp ++ fmt_bool same)
+            && Bool.eqb same (match loc_cmp x y with Eq => true | _ => false end)
+          | _, _ => true end)
+  else None.
+
 (* ------------------------------------------------------------------ top level *)
 Definition oracle_model (op : bytes) (args : list bytes) : bytes :=
   match oracle_model_subtags op args with Some r => r | None =>
   match oracle_model_likely op args with Some r => r | None =>
   match oracle_model_langid op args with Some r => r | None =>
-  bs "UNKNOWN-OP" end end end.
+  match oracle_model_locale op args with Some r => r | None =>
+  bs "UNKNOWN-OP" end end end end.
 
 (* None = no specification attached to this operation (only the model is compared) *)
 Definition oracle_spec (op : bytes) (args : list bytes) (impl : bytes) : option bool :=
   match oracle_spec_subtags op args impl with Some r => Some r | None =>
   match oracle_spec_likely op args impl with Some r => Some r | None =>
   match oracle_spec_langid op args impl with Some r => Some r | None =>
-  None end end end.
+  match oracle_spec_locale op args impl with Some r => Some r | None =>
+  None end end end end.
